@@ -94,7 +94,15 @@ fn one<B: Backend>(rep: &mut Report, kp: &KeyPair<B>, keylabel: &str, msg: &[u8]
                "msg_len": msg.len(), "msg": hx_short(msg), "footer": hx_short(footer), "aad": hx_short(aad),
                "what": what, "token": if tok.len() > 400 { &tok[..400] } else { tok }})
     };
-    let res = guard(|| kp.seal(msg, footer, aad));
+    // a third of the tokens are sealed by a *clone* of the key objects and opened by the originals,
+    // another third the other way round
+    let clone = kp.cloned();
+    let (sealer, opener) = match h % 3 {
+        0 => (&clone, kp),
+        1 => (kp, &clone),
+        _ => (kp, kp),
+    };
+    let res = guard(|| sealer.seal(msg, footer, aad));
     let tok = match res {
         Err(pn) => {
             rep.violation(&format!("{sig_base}|seal-panic"), detail(&pn, ""));
@@ -139,7 +147,7 @@ fn one<B: Backend>(rep: &mut Report, kp: &KeyPair<B>, keylabel: &str, msg: &[u8]
             }
         }
     }
-    match guard(|| kp.open(&tok, aad)) {
+    match guard(|| opener.open(&tok, aad)) {
         Err(pn) => rep.violation(&format!("{sig_base}|open-panic"), detail(&pn, &tok)),
         Ok(Err(e)) => rep.violation(&format!("{sig_base}|open-error:{}", err_kind(&e)), detail("unseal of own token returned Err", &tok)),
         Ok(Ok((m, f))) => {
@@ -404,7 +412,49 @@ fn related_keys<B: Backend>(opts: &Opts, rep: &mut Report) {
     }
 }
 
+/// one key object, one thread, one process: tens of thousands of seal / open cycles in a row (a counter,
+/// a cache that fills up, a buffer that grows, the N-th use being special - N = 256, 4096, 65536)
+fn long_run<B: Backend + 'static>(opts: &Opts, rep: &mut Report) {
+    for (pi, p) in [Purp::Local, Purp::Public].into_iter().enumerate() {
+        // a dedicated shard per (backend, purpose) so that the whole run happens in one process
+        let slot = (B::VER as usize * 2 + pi + if B::FAMILY == Family::Ffi { 5 } else { 0 }) % opts.nshards;
+        if opts.shard != slot && opts.only.is_none() {
+            continue;
+        }
+        let n: u64 = match (p, B::VER) {
+            (Purp::Public, 1) => opts.size(300, 3000) as u64,
+            (Purp::Public, 3) => opts.size(5000, 70_000) as u64,
+            _ => opts.size(70_000, 300_000) as u64,
+        };
+        let stream = format!("c01.{}.{}.long-run", B::NAME, p.name());
+        let mut rng = Rng::derive(opts.seed, &stream, 0);
+        let kp = KeyPair::<B>::gen_for(p, &mut rng);
+        let mut bad = 0u64;
+        for i in 0..n {
+            let msg = i.to_le_bytes();
+            let footer: &[u8] = if i % 3 == 0 { b"" } else { b"kid" };
+            let ok = match guard(|| kp.seal(&msg, footer, b"").and_then(|t| kp.open(&t, b""))) {
+                Ok(Ok((m, f))) => m == msg && f == footer,
+                _ => false,
+            };
+            if !ok {
+                bad += 1;
+                if bad <= 3 {
+                    rep.violation(&format!("C01|{}|{}|fails-on-the-nth-use-of-a-key-object", B::NAME, p.name()), json!({"backend": B::NAME, "purpose": p.name(), "use_number": i + 1, "of": n, "what": "seal + open on one key object failed after that many successful uses in this process"}));
+                }
+            }
+            if i % 1024 == 0 {
+                heartbeat(&stream);
+            }
+        }
+        rep.case(&format!("{}.{}.long-run", B::NAME, p.name()), fnv(stream.as_bytes()), true);
+        rep.count_n(&format!("{}.{}.long-run.cycles", B::NAME, p.name()), n);
+        rep.sample_class(&format!("{}.{}.long-run", B::NAME, p.name()), 1, || json!({"backend": B::NAME, "purpose": p.name(), "seal_open_cycles_on_one_key_object": n, "failures": bad}));
+    }
+}
+
 fn backend<B: Backend + 'static>(opts: &Opts, rep: &mut Report) {
+    long_run::<B>(opts, rep);
     let lens = payload_lengths(opts.thorough());
     let foots = footers();
     let mut idx: u64 = 0;
@@ -516,7 +566,7 @@ pub fn run(opts: &Opts) {
     for_backends!(opts, backend, opts, &mut rep);
     rep.set(
         "rule",
-        json!("cases = (backend, purpose, sealing key, payload, footer, assertion) sealed with encrypt/sign (library randomness); distinct = distinct input tuples (the 'repeat' class seals one tuple N times to vary the RNG outcome and therefore counts once); related-keys: 32 keys one byte apart used back to back, then all their tokens opened forwards and backwards; typed-history: per shard one key object and one thread carry a sequence of steps drawn from {seal that must be refused after the encoder produced output (failing Serialize impl, non-string map keys, failing payload / footer encoders), unseal that must fail, JSON claims + JSON footer round trip (footer bytes = serde_json, claims and footer equal, parse->Display identical), raw round trip, raw footer holding non-canonically spelled JSON opened through Json<Value> / a lossy footer type}"),
+        json!("cases = (backend, purpose, sealing key, payload, footer, assertion) sealed with encrypt/sign (library randomness); distinct = distinct input tuples (the 'repeat' class seals one tuple N times to vary the RNG outcome and therefore counts once); long-run: per backend and purpose one process performs 70 000 (thorough 300 000; P-384 and RSA signatures fewer) seal + open cycles on one key object; related-keys: 32 keys one byte apart used back to back, then all their tokens opened forwards and backwards; typed-history: per shard one key object and one thread carry a sequence of steps drawn from {seal that must be refused after the encoder produced output (failing Serialize impl, non-string map keys, failing payload / footer encoders), unseal that must fail, JSON claims + JSON footer round trip (footer bytes = serde_json, claims and footer equal, parse->Display identical), raw round trip, raw footer holding non-canonically spelled JSON opened through Json<Value> / a lossy footer type}"),
     );
     rep.finish(opts);
 }
